@@ -336,7 +336,9 @@ def case_copy_keys(rec, c):
 
 
 # E2 ------------------------------------------------------------------------
-INPLACE_OPS = ['+=s', '-=s', '*=s', '/=s', '+=M', '-=M', '*=M', '/=M', '@=M', 'inv']
+INPLACE_OPS = ['+=s', '-=s', '*=s', '/=s', '+=M', '-=M', '*=M', '/=M', '@=M', 'inv',
+               'set', 'setM',            # writes through into the existing buffer (pair by type names / one matrix)
+               'inv?', 'copy?']          # out-of-place observers: must see the *current* contents and leave A alone
 
 
 def case_seq(rec, c):
@@ -364,6 +366,45 @@ def case_seq(rec, c):
         elif op == '@=M':
             A @= M
             ref = ref_dot(ref, M0)
+        elif op == 'set':
+            v = 0.25 + 0.125 * np.arange(L) + 0.5 * n
+            A[A.types[0], A.types[-1]] = v
+            ref = ref.copy()
+            ref[:, 0, rank - 1] = v
+            ref[:, rank - 1, 0] = v
+        elif op == 'setM':
+            mat = np.eye(rank) * (2.0 + n) + 0.125
+            A.setMatrix(L - 1, mat)
+            ref = ref.copy()
+            ref[L - 1] = mat
+        elif op == 'inv?':
+            try:
+                cnd = max(float(np.linalg.cond(ref[l])) for l in range(L))
+            except np.linalg.LinAlgError:
+                cnd = float('inf')
+            if not cnd < 1e4:
+                rec.count('pruned_ill_conditioned')
+                return
+            R = A.invert()
+            want = np.array([np.linalg.inv(ref[l]) for l in range(L)])
+            tolv = 256 * np.finfo(float).eps * rank * cnd * min(err_scale, 1e8)
+            if R is A or np.shares_memory(R.data, A.data):
+                rec.fail({'kind': 'seq', 'rank': rank, 'length': L, 'ops': c['ops'][:n + 1]},
+                         'sequence %s: out-of-place invert aliases its operand' % (c['ops'][:n + 1],), tags('alias', op=op, seq=True))
+                return
+            if not float(np.max(np.abs(R.data - want))) <= tolv * float(np.max(np.abs(want))):
+                rec.fail({'kind': 'seq', 'rank': rank, 'length': L, 'ops': c['ops'][:n + 1]},
+                         'sequence %s: A.invert() is not the inverse of the current contents of A (max dev %.3g)'
+                         % (c['ops'][:n + 1], float(np.max(np.abs(R.data - want)))), tags('value', op=op, seq=True))
+                return
+            R.data[...] = 7.0                      # the caller owns the result
+        elif op == 'copy?':
+            Cp = A.get_copy()
+            if np.shares_memory(Cp.data, A.data) or not np.array_equal(Cp.data, A.data):
+                rec.fail({'kind': 'seq', 'rank': rank, 'length': L, 'ops': c['ops'][:n + 1]},
+                         'sequence %s: get_copy is not an independent copy of the current contents' % (c['ops'][:n + 1],), tags('alias', op=op, seq=True))
+                return
+            Cp.data[...] = -3.0
         else:
             sym, rhs = op[0], op[2]
             b = s if rhs == 's' else M
@@ -393,10 +434,85 @@ def case_seq(rec, c):
     rec.outcome(core.digest([rank, L, c['ops'], A.data.ravel()[:5]], 7))
 
 
+IDENT_OPS = ['+=s', '*=s', '-=M', 'set', 'setM', 'inv', 'new', 'oop']
+
+
+def case_ident_seq(rec, c):
+    """Two IdentityMatrixArrays of one shape plus every freshly constructed one: operations on the first never
+    show up in the others (no shared identity block)."""
+    P = pp()
+    rank, L = c['rank'], c['length']
+    I1 = P.IdentityMatrixArray(length=L, rank=rank, space=P.Space.Fourier)
+    I2 = P.IdentityMatrixArray(length=L, rank=rank, space=P.Space.Fourier)
+    M = mk(rank, L, 'Fourier', 0.9)
+    M0 = M.data.copy()
+    eye = np.array(np.broadcast_to(np.eye(rank), (L, rank, rank)))
+    ref = eye.copy()
+    rec.state()
+    for n, op in enumerate(c['ops']):
+        hist = {'kind': 'ident_seq', 'rank': rank, 'length': L, 'ops': c['ops'][:n + 1]}
+        try:
+            if op == '+=s':
+                I1 += 0.5
+                ref = ref + 0.5
+            elif op == '*=s':
+                I1 *= 3.0
+                ref = ref * 3.0
+            elif op == '-=M':
+                I1 -= M
+                ref = ref - M0
+            elif op == 'set':
+                v = 0.25 + 0.125 * np.arange(L)
+                I1[I1.types[0], I1.types[-1]] = v
+                ref = ref.copy()
+                ref[:, 0, rank - 1] = v
+                ref[:, rank - 1, 0] = v
+            elif op == 'setM':
+                I1.setMatrix(0, np.full((rank, rank), 2.0))
+                ref = ref.copy()
+                ref[0] = 2.0
+            elif op == 'inv':
+                if not max(float(np.linalg.cond(ref[l])) for l in range(L)) < 1e4:
+                    rec.count('pruned_ill_conditioned')
+                    return
+                I1.invert(inplace=True)
+                ref = np.array([np.linalg.inv(ref[l]) for l in range(L)])
+            elif op == 'new':
+                I3 = P.IdentityMatrixArray(length=L, rank=rank, space=P.Space.Fourier)
+                if not np.array_equal(I3.data, eye):
+                    rec.fail(hist, 'history %s on one IdentityMatrixArray: a newly constructed IdentityMatrixArray(length=%d, rank=%d) is not the identity'
+                             % (c['ops'][:n + 1], L, rank), tags('alias', op='identity', seq=True))
+                    return
+                I3.data[...] = 11.0                # and it is the caller's own
+            elif op == 'oop':
+                D = I2 - M
+                if not np.array_equal(D.data, eye - M0):
+                    rec.fail(hist, 'history %s: I - M with an untouched IdentityMatrixArray differs from the matrix-by-matrix result' % (c['ops'][:n + 1],),
+                             tags('value', op='identity', seq=True))
+                    return
+        except Exception as e:
+            rec.fail(hist, 'history %s raised %s: %s' % (c['ops'][:n + 1], type(e).__name__, str(e)[:80]), tags('raises', op='identity', seq=True))
+            return
+        rec.trans()
+        if not np.array_equal(I2.data, eye):
+            rec.fail(hist, 'history %s on one IdentityMatrixArray changed another IdentityMatrixArray of the same shape' % (c['ops'][:n + 1],),
+                     tags('alias', op='identity', seq=True))
+            return
+        sc = float(np.max(np.abs(ref)))
+        if not float(np.max(np.abs(I1.data - ref))) <= 1e-9 * sc:
+            rec.fail(hist, 'history %s: the modified IdentityMatrixArray differs from the numpy reference' % (c['ops'][:n + 1],), tags('value', op='identity', seq=True))
+            return
+        if not np.array_equal(M.data, M0):
+            rec.fail(hist, 'history %s modified the right operand' % (c['ops'][:n + 1],), tags('alias', op='identity', seq=True))
+            return
+    rec.trace()
+    rec.outcome(core.digest([rank, L, 'ident', c['ops'], I1.data.ravel()[:5]], 7))
+
+
 def replay(rec, case):
     with warnings.catch_warnings(), np.errstate(all='ignore'):
         warnings.simplefilter('ignore')
-        {'binop': case_binop, 'dot': case_dot, 'invert': case_invert, 'keys': case_copy_keys, 'seq': case_seq}[case['kind']](rec, case)
+        {'binop': case_binop, 'dot': case_dot, 'invert': case_invert, 'keys': case_copy_keys, 'seq': case_seq, 'ident_seq': case_ident_seq}[case['kind']](rec, case)
 
 
 def _worker(item):
@@ -419,6 +535,8 @@ def _worker(item):
             for d in range(1, depth + 1):
                 for ops in itertools.product(INPLACE_OPS, repeat=d):
                     case_seq(rec, {'kind': 'seq', 'rank': rank, 'length': L, 'ops': list(ops)})
+                for ops in itertools.product(IDENT_OPS, repeat=d):
+                    case_ident_seq(rec, {'kind': 'ident_seq', 'rank': rank, 'length': L, 'ops': list(ops)})
     return rec.to_dict()
 
 
@@ -429,7 +547,7 @@ def run(rec, tier, seed):
         ranks, lengths, depth = [1, 2, 3, 4, 5], [1, 2, 3, 7, 64], 4
     core.pmap(_worker, [(r, lengths, depth) for r in ranks], rec)
     rec.note('alphabets', {'ranks': ranks, 'lengths': lengths, 'binops': BINOPS, 'operand_kinds': OPERAND_KINDS,
-                           'flags': FLAGS, 'inplace_ops': INPLACE_OPS})
+                           'flags': FLAGS, 'inplace_ops': INPLACE_OPS, 'identity_ops': IDENT_OPS})
     rec.note('bounds', {'inplace_sequence_depth': depth})
     rec.sample({'kind': 'binop', 'rank': 2, 'length': 7, 'op': '/', 'operand': 'MA1', 'inplace': True, 'f1': 'Fourier', 'f2': 'NonSpatial'})
     rec.sample({'kind': 'seq', 'rank': 3, 'length': 2, 'ops': ['*=M', 'inv', '@=M']})
